@@ -433,13 +433,14 @@ class TokGen:
         if k < 78:
             return [tok_t("capture", self.expr("capture"))] + self.block(depth + 1) + [tok_t("endcapture")]
         if k < 84:
-            return [tok_t(r.choice(["break", "continue"]))]
+            # an interrupt outside a loop is itself an error: mostly keep them inside loops
+            return [tok_t(r.choice(["break", "continue"]))] if (self.in_loop or r.chance(15)) else [tok_c(r.choice(TEXTS))]
         if k < 94 and self.allow_partials:
             kind = r.choice(["include", "render"])
             return [tok_t(kind, self.expr(kind))]
         if k < 96 and self.allow_extends:
             return [tok_t("extends", self.expr("extends"))]
-        return [orphan(r)]
+        return [orphan(r)] if r.chance(35) else [tok_o(self.expr("output"))]
 
 
 def damage(rng, toks, pn):
@@ -484,7 +485,7 @@ def damage(rng, toks, pn):
     return toks
 
 
-def gen_tok_case(rng, damage_pct=65):
+def gen_tok_case(rng, damage_pct=45):
     # p0: leaf partial; p1 may render p0; pb interrupts; base for extends
     g0 = TokGen(rng, [], allow_partials=False)
     p0 = [tok_c("[p0 ")] + g0.block(1) + [tok_c("]")]
@@ -495,7 +496,7 @@ def gen_tok_case(rng, damage_pct=65):
     base = [tok_c("<base ")] + TokGen(rng, [], allow_partials=False).block(1) + [tok_c(">")]
     partials = {"p0": p0, "p1": p1, "pb": pb, "base": base}
     extends = rng.chance(8)
-    g = TokGen(rng, ["p0", "p1", "pb"], allow_extends=extends, bad=rng.choice([0, 5, 12, 30]))
+    g = TokGen(rng, ["p0", "p1", "pb"], allow_extends=extends, bad=rng.choice([0, 0, 3, 8, 30]))
     toks = g.block(0) + g.block(0)
     if extends and rng.chance(60):
         toks = [tok_t("extends", ("'base'", OK, ["ok", "base", 0]))] + toks
@@ -642,7 +643,7 @@ class SmallStream(TokenStreamBase):
                 out.append({"toks": toks, "partials": {}, "nest": 100, "extra": False})
         # deeper, over the block skeleton only
         core = [ALPHABET[i] for i in (0, 5, 6, 9, 10, 11, 12, 13, 15, 16)]
-        D = ctx.scale(4, 5)
+        D = ctx.scale(3, 5)
         for seq in itertools.product(range(len(core)), repeat=D):
             out.append({"toks": normalise([core[i] for i in seq]), "partials": {}, "nest": 2 if (len(out) % 3 == 0) else 100, "extra": False})
         return out
@@ -653,7 +654,7 @@ class TokensStream(TokenStreamBase):
 
     def cases(self, ctx):
         rng = ctx.rng_for("tokens")
-        return [gen_tok_case(rng.fork(str(i))) for i in range(ctx.scale(1500, 30000))]
+        return [gen_tok_case(rng.fork(str(i))) for i in range(ctx.scale(3000, 30000))]
 
 
 # ------------------------------------------------------------------------------------------------
@@ -667,7 +668,7 @@ class ModesStream(Stream):
     def cases(self, ctx):
         rng = ctx.rng_for("modes")
         out = []
-        for i in range(ctx.scale(1500, 30000)):
+        for i in range(ctx.scale(3000, 30000)):
             r = rng.fork(str(i))
             p = gen_program(r)
             kind = r.below(10)
